@@ -1034,6 +1034,26 @@ func (r *Runner) attempt(i int, n *Node, s *Step, req ExecReq, at Attempt, t0 *T
 		r.Stats.NotFired++
 		return
 	}
+	// An attempt that the runtime reports as SUCCESSFUL although a host fault fired (C28 judges the swallowing) is a transaction a
+	// host would commit: its register writes, applied to this node's ledger, must leave committed storage healthy (C23).
+	if t.Class == "ok" && req.Kind == "tx" && r.Opts.Health {
+		w := n.H.W.Clone()
+		for _, wr := range t.Writes {
+			parts := strings.SplitN(wr.Key, "|", 2)
+			ob, _ := hex.DecodeString(parts[0])
+			kb, _ := hex.DecodeString(parts[1])
+			vb, _ := hex.DecodeString(wr.Val)
+			if len(vb) == 0 {
+				delete(w.Ledger, lkey(ob, kb))
+			} else {
+				w.Ledger[lkey(ob, kb)] = vb
+			}
+		}
+		r.Stats.HealthChecks++
+		if rep := CheckHealth(w); rep.Err != "" {
+			r.violate("C23", "ledger.health-after-swallowed-fault", i, n.Cfg.Name, "health-after-fault", "a transaction reported as successful although host fault %v fired would commit an unhealthy ledger: %s", t.Fired, rep.Err)
+		}
+	}
 	r.Stats.AbortedAttempts++
 	r.invariants(i, n, s, t, true)
 	r.checkFaulted(i, n, t, "")
